@@ -172,6 +172,12 @@ class Bits:
                     res = (max(a[0], b[0]) + 1, (name,))
             elif cal in PASS and args:
                 res = self.bits_op(args[0], depth + 1)
+            elif tgt and args and tgt in self.prog.bodies and self.prog.bodies[tgt].kind == 'Closure':
+                # a closure of the function called for its value (`let scaled = |k| ..; rand_int(1, scaled(l + t + s1) - 1)`): what it returns; when
+                # that cannot be followed the value is credited with no bits at all (a mask bound of unknown size is not a mask)
+                ch = self.child(tgt)
+                b = ch.bits_place({'l': 0}, depth + 1)
+                res = (b[0], (name,)) if b is not None else (0, (name,))
             elif tgt and args:
                 summ = self.eng.summary(tgt)
                 if summ and summ.get('alias'):
@@ -1083,6 +1089,20 @@ def rule_random_helpers(ctx, cfg='prod-all'):
             prov = fr0.lift(fr0.fd.read_op(t0['args'][0]))
             ok = ok and any(a[0] == 'o' and a[1].endswith('thread_rng') for a in prov) and not any(strip(a)[0] in ('p', 's') or (a[0] == 'c' and a[1] not in ('0',)) for a in prov)
         yield Ob('RF-G1', '%s#seed' % fn, ok, 'the ChaCha20 generator is seeded from rand::thread_rng and nothing else', bb.span, fact=fmt_atoms(bb, prov or set()), expected='{rand::thread_rng}')
+    # random_prime(n) = next_prime(random_bits(n)): the search starts from a value with bit n - 1 set (a start drawn uniformly below 2^n gives a
+    # shorter prime half of the time; key generation uses the prime as it comes)
+    RP_ = 'utils::random::random_prime'
+    pb_ = prog.bodies.get(RP_)
+    if pb_ is None:
+        raise AnchorMissing(RP_)
+    pz_ = za.zf(RP_) if False else None
+    starts = [t for bi, t in pb_.calls() if (local_target(eng, t) or '').endswith('utils::random::random_bits')]
+    others = [(local_target(eng, t) or t.get('callee') or '').split('::')[-1] for bi, t in pb_.calls()
+              if (local_target(eng, t) or '').startswith('utils::random::') and not (local_target(eng, t) or '').endswith('random_bits')]
+    nextp = [t for bi, t in pb_.calls() if (t.get('callee') or '').split('::')[-1] in ('next_prime', 'next_prime_mut', 'next_prime_ref')]
+    arg_ok = bool(starts) and all(t['args'] and t['args'][0].get('k') in ('copy', 'move') and eng.fndep(RP_).resolve_place(t['args'][0]['pl'])[0] == 1 for t in starts)
+    yield Ob('RF-Q', '%s#start' % RP_, len(starts) == 1 and arg_ok and not others and len(nextp) >= 1, 'random_prime(n) is the next prime after random_bits(n)', pb_.span,
+             fact={'random_bits_calls': len(starts), 'argument_is_n': arg_ok, 'other_draws': others, 'next_prime_calls': len(nextp)}, expected='one random_bits(n), next_prime')
     RI = 'utils::random::rand_int'
     bb = prog.bodies[RI]
     fdd = eng.fndep(RI)
